@@ -471,8 +471,15 @@ func (w WS) Expect() (outs map[string]map[string]OutFile, bodies map[string]stri
 			m[root+"/link"] = OutFile{Link: "main.txt"}
 			// one entry per resolved input: the set of entries moves with glob membership
 			m[root+"/in"] = OutFile{Dir: true}
+			m[root+"/zlink"] = OutFile{Link: "main.txt"}
+			m[root+"/by"] = OutFile{Dir: true}
+			m[fmt.Sprintf("%s/n%d", root, len(body))] = OutFile{Dir: true}
+			m[fmt.Sprintf("%s/n%d/f", root, len(body))] = OutFile{Content: "x\n"}
 			for _, rel := range w.ResolvedInputs(t) {
-				m[root+"/in/"+strings.ReplaceAll(rel, "/", "_")] = OutFile{Content: w.Files[path.Join(t.Pkg, rel)]}
+				u := strings.ReplaceAll(rel, "/", "_")
+				m[root+"/in/"+u] = OutFile{Content: w.Files[path.Join(t.Pkg, rel)]}
+				m[root+"/by/"+u] = OutFile{Dir: true}
+				m[root+"/by/"+u+"/v"] = OutFile{Content: w.Files[path.Join(t.Pkg, rel)]}
 			}
 		}
 		outs[l] = m
@@ -586,8 +593,11 @@ func (w WS) Command(t *Target) string {
 	for _, d := range t.OutDirs {
 		q := shQuote(d)
 		fmt.Fprintf(&b, "rm -rf %s; mkdir -p %s/sub %s/empty; cp \"$body\" %s/main.txt; cp \"$body\" %s/sub/copy.txt; printf '#!/bin/sh\\necho tool\\n' > %s/sub/tool.sh; chmod 755 %s/sub/tool.sh; chmod 644 %s/main.txt %s/sub/copy.txt; ln -s main.txt %s/link; mkdir -p %s/in\n", q, q, q, q, q, q, q, q, q, q, q)
+		// a link that sorts after what it points to, and sub-directories that come and go with the state: one named after
+		// the size of the body, one per resolved input
+		fmt.Fprintf(&b, "ln -s main.txt %s/zlink; n=$(wc -c < \"$body\" | tr -d ' '); mkdir -p %s/by %s/n$n; printf 'x\\n' > %s/n$n/f; chmod 644 %s/n$n/f\n", q, q, q, q, q)
 		if len(t.Inputs) > 0 {
-			fmt.Fprintf(&b, "%s | while IFS= read -r f; do cp \"$f\" %s/in/\"$(printf '%%s' \"$f\" | tr / _)\"; chmod 644 %s/in/\"$(printf '%%s' \"$f\" | tr / _)\"; done\n", enumerateInputsSh(t), q, q)
+			fmt.Fprintf(&b, "%s | while IFS= read -r f; do u=\"$(printf '%%s' \"$f\" | tr / _)\"; cp \"$f\" %s/in/\"$u\"; chmod 644 %s/in/\"$u\"; mkdir -p %s/by/\"$u\"; cp \"$f\" %s/by/\"$u\"/v; chmod 644 %s/by/\"$u\"/v; done\n", enumerateInputsSh(t), q, q, q, q, q)
 		}
 	}
 	b.WriteString("rm -f \"$body\"\n")
